@@ -1,14 +1,14 @@
 SPECIFICATION Spec
 CONSTANTS
-  NG = 3
+  NG = 1
   NO = 2
-  ND = 4
-  NP = 2
-  Names = {"a", "b"}
+  ND = 2
+  NP = 1
+  Names = {"a"}
   Vals = {1, 2}
-  Acts = {"CreateGroup", "CreateObject", "AddData", "AddVisual", "CreateWithUid", "Rename", "SetFlag", "SetVal", "SetMeta", "Move", "MoveSame", "AddToGroup", "AddDataFails", "StripOpt", "SaveAs", "Helper", "Copy2", "Remove2", "ScrubData", "CreateDeferred", "PGWithUid", "RemoveFromGroup", "RemovePG", "RemoveViaWorkspace", "RemoveViaParent", "DropRef", "Collect", "Purge", "LookupDead", "Copy", "Close", "Open"}
+  Acts = {"CreateObject", "AddVisual", "AddData", "Copy", "SetMeta", "RemoveViaWorkspace", "Close", "Open"}
   Deviations = {"CloseKeepsOrphans"}
-  MaxDepth = 60
+  MaxDepth = 6
 CONSTRAINT DepthBound
 VIEW vw
 INVARIANT TypeOK
